@@ -22,7 +22,7 @@ BOUNDS = {
     "quick": "n<=5, p in {1,2}, up to 2 changepoints / anomalies with positions symbolic in [-1, n+1], symbolic means, "
              "variances >= 0 and standard-normal draws; alternating data: <=3 segments of length <=2; outliers: n<=6, p<=2, "
              "n_outliers<=n",
-    "thorough": "n<=7, p<=3, up to 3 changepoints / 2 anomalies",
+    "thorough": "n<=8, p<=3, up to 3 changepoints / 3 anomalies",
 }
 STUBS = ["scipy.stats.multivariate_normal.rvs: arbitrary reals Z (one variable per entry) for a given (seed, n, p), with "
          "scipy's squeeze of the output shape; the same arguments give the same Z (the seed contract); scipy's real "
@@ -298,8 +298,8 @@ def jobs(tier):
         an = [(3, 1, 1), (4, 2, 1), (5, 1, 2)]
         misc = dict(nmax=6, pmax=2)
     else:
-        ch = [(n, p, k, pc) for n in (3, 5, 7) for p in (1, 2, 3) for k in (1, 2) for pc in (False, True) if not (pc and p == 1)] + [(6, 1, 3, False)]
-        an = [(n, p, k) for n in (3, 5, 7) for p in (1, 2) for k in (1, 2)]
+        ch = [(n, p, k, pc) for n in (3, 5, 7) for p in (1, 2, 3) for k in (1, 2) for pc in (False, True) if not (pc and p == 1)] + [(6, 1, 3, False), (8, 2, 3, True)]
+        an = [(n, p, k) for n in (3, 5, 7, 8) for p in (1, 2) for k in (1, 2)] + [(6, 1, 3)]
         misc = dict(nmax=8, pmax=3)
     for (n, p, k, pc) in ch:
         out.append(Job(M, "make_changing", dict(n=n, p=p, k=k, percol=pc), split=k >= 2))
